@@ -29,8 +29,9 @@ type feedCall struct {
 	Failed  bool
 	Ctx     bool // context already cancelled when the call was made
 	// G
-	Latest []byte
-	NotEx  bool
+	Latest    []byte
+	NotEx     bool
+	Swallowed bool // the witness holds a checkpoint, yet the answer was "nothing, no error"
 	// P
 	From, To log.Checkpoint
 	Proof    [][]byte
@@ -43,6 +44,7 @@ type feedCall struct {
 }
 
 type feedWorld struct {
+	truth     func() []byte // what the real witness's store holds (fault-free side read); nil for the stub
 	mu        sync.Mutex
 	calls     []*feedCall
 	attempt   int
@@ -90,6 +92,9 @@ func (fw *feedWorld) GetLatestCheckpoint(ctx context.Context, logID string) ([]b
 	c.Latest = b
 	c.NotEx = errors.Is(err, os.ErrNotExist)
 	c.Err = err
+	if fw.truth != nil && err == nil && len(b) == 0 && len(fw.truth()) > 0 {
+		c.Swallowed = true
+	}
 	return b, err
 }
 
@@ -139,19 +144,20 @@ func (s *stubWitness) Update(ctx context.Context, logID string, oldSize uint64, 
 }
 
 type c13Result struct {
-	calls         []*feedCall
-	out           []byte
-	err           error
-	returned      bool
-	fetched       []byte
-	cpValid       bool
-	fired         int
-	finalReal     []byte
-	simTime       time.Duration
-	cancelled     bool
-	callsAtCancel int
-	W             *World
-	infra         string
+	runReturnDelay time.Duration
+	calls          []*feedCall
+	out            []byte
+	err            error
+	returned       bool
+	fetched        []byte
+	cpValid        bool
+	fired          int
+	finalReal      []byte
+	simTime        time.Duration
+	cancelled      bool
+	callsAtCancel  int
+	W              *World
+	infra          string
 }
 
 func c13Exec(t *testing.T, p *Plan) (r *c13Result) {
@@ -182,7 +188,31 @@ func c13Exec(t *testing.T, p *Plan) (r *c13Result) {
 			known, _ := w.KnownLogs()
 			signers, _ := w.Signers()
 			var err error
-			realW, err = witness.New(witness.Opts{Persistence: inmemory.NewPersistence(), Signers: signers, KnownLogs: known})
+			base := inmemory.NewPersistence()
+			var smu sync.Mutex
+			sfired := 0
+			var sfail int64 = -1
+			if v, ok := p.Cfg.Extra["sfail"]; ok {
+				sfail = v
+			}
+			store := faultyP{in: base, mu: &smu, occ: map[string]int{}, fired: &sfired, fault: func(call, id string, occ int) error {
+				if call == "R.GetLatest" && int64(occ) == sfail {
+					fw.mu.Lock()
+					fw.fired++
+					fw.mu.Unlock()
+					return errors.New("injected: database is locked")
+				}
+				return nil
+			}}
+			fw.truth = func() []byte {
+				rd, err := base.ReadOps(ld.ID)
+				if err != nil {
+					return nil
+				}
+				b, _ := rd.GetLatest()
+				return b
+			}
+			realW, err = witness.New(witness.Opts{Persistence: store, Signers: signers, KnownLogs: known})
 			if err != nil {
 				r.infra = err.Error()
 				return
@@ -197,8 +227,8 @@ func c13Exec(t *testing.T, p *Plan) (r *c13Result) {
 			if ex["compete"] == 1 {
 				fw.compete = func() {
 					// another feeder gets in first: the witness moves forward on the same branch
-					cur, err := realW.GetCheckpoint(ld.ID)
-					if err != nil {
+					cur := fw.truth()
+					if len(cur) == 0 {
 						_, _ = realW.Update(context.Background(), ld.ID, 0, mk(wbranch, 1+uint64(ex["cdelta"])), nil)
 						return
 					}
@@ -274,6 +304,52 @@ func c13Exec(t *testing.T, p *Plan) (r *c13Result) {
 		}
 		start := time.Now()
 		done := make(chan struct{})
+		if p.Cfg.Notes["mode"] == "run" {
+			// the polling loop: it must stop when its context ends, also in the middle of a failing cycle
+			interval := time.Duration(ex["interval_s"]) * time.Second
+			go func() {
+				defer close(done)
+				r.err = feeder.Run(ctx, interval, opts)
+			}()
+			cancelAfter := time.Duration(ex["cancel_after_ms"]) * time.Millisecond
+			time.Sleep(cancelAfter)
+			synctest.Wait()
+			fw.mu.Lock()
+			fw.cancelled = true
+			r.callsAtCancel = len(fw.calls)
+			fw.mu.Unlock()
+			cancel()
+			cancelT := time.Now()
+			for i := 0; i < 400 && !r.returned; i++ {
+				synctest.Wait()
+				select {
+				case <-done:
+					r.returned = true
+				default:
+					time.Sleep(500 * time.Millisecond)
+				}
+			}
+			r.runReturnDelay = time.Since(cancelT)
+			r.simTime = time.Since(start)
+			fw.mu.Lock()
+			r.calls, r.fired, r.cancelled = fw.calls, fw.fired, true
+			fw.mu.Unlock()
+			if !r.returned {
+				// cannot leave the bubble with Run still going: advance until its detached cycle times out
+				for i := 0; i < 1000 && !r.returned; i++ {
+					time.Sleep(10 * time.Second)
+					synctest.Wait()
+					select {
+					case <-done:
+						r.returned = true
+						r.runReturnDelay = time.Since(cancelT)
+					default:
+					}
+				}
+				r.returned = false
+			}
+			return
+		}
 		go func() {
 			defer close(done)
 			r.out, r.err = feeder.FeedOnce(ctx, opts)
@@ -323,7 +399,7 @@ func c13Exec(t *testing.T, p *Plan) (r *c13Result) {
 		}
 		fw.mu.Unlock()
 		if realW != nil {
-			r.finalReal, _ = realW.GetCheckpoint(ld.ID)
+			r.finalReal = fw.truth()
 		}
 	})
 	return r
@@ -336,9 +412,27 @@ func oracleC13(p *Plan, r *c13Result) []Violation {
 	}
 	w := r.W
 	ld := w.Logs[0]
+	if p.Cfg.Notes["mode"] == "run" {
+		if !r.returned || r.runReturnDelay > 3*time.Second {
+			add("ran_after_cancel", "run_did_not_return", fmt.Sprintf("feeder.Run was still running %v (simulated) after its context ended (returned=%v; calls: %s)", r.runReturnDelay, r.returned, callString(r.calls)))
+		}
+		for _, c := range r.calls[min(r.callsAtCancel, len(r.calls)):] {
+			if c.Kind == "G" {
+				add("ran_after_cancel", "new_attempt", fmt.Sprintf("feeder.Run started a new attempt after its context had ended (%d calls before, %d in total)", r.callsAtCancel, len(r.calls)))
+				break
+			}
+		}
+		return out
+	}
 	if !r.returned {
 		add("ran_after_cancel", "never_returned", "FeedOnce did not return within 4000 simulated seconds of scheduler steps")
 		return out
+	}
+	for _, c := range r.calls {
+		if c.Kind == "G" && c.Swallowed {
+			add("wrong_old_size", "witness_reported_nothing", fmt.Sprintf("attempt %d: the witness holds a checkpoint, its store failed to read it, and the feeder was told 'no checkpoint, no error' (so it goes on as if this were first use)", c.Attempt))
+			return out
+		}
 	}
 	var sub Stored
 	if r.cpValid {
@@ -626,6 +720,43 @@ func init() {
 							return out
 						}
 					}
+				}
+			}
+			if p.Cfg.Extra["real"] == 1 {
+				// the witness's own store fails to read (under the real adapter) in attempt 1, 2 or 3
+				for sf := int64(0); sf < 3; sf++ {
+					q := p.Clone()
+					q.Cfg.Extra["enum"] = 0
+					q.Cfg.Extra["sfail"] = sf
+					r, v := one(q)
+					if len(out.Infra) > 0 {
+						return out
+					}
+					if len(v) > 0 {
+						out.Viol, out.FailPlan = v, q
+						out.Events = []string{shape, callString(r.calls)}
+						return out
+					}
+				}
+			}
+			// the polling loop under cancellation: mid-cycle (witness failing) and between cycles
+			for _, rc := range [][3]int64{{60, 700, 1}, {60, 7000, 1}, {10, 25000, 1}, {60, 90000, 0}, {30, 31000, 0}} {
+				q := p.Clone()
+				q.Cfg.Extra["enum"] = 0
+				q.Cfg.Notes["mode"] = "run"
+				q.Cfg.Extra["interval_s"], q.Cfg.Extra["cancel_after_ms"] = rc[0], rc[1]
+				q.Cfg.Notes["fail"] = ""
+				if rc[2] == 1 {
+					q.Cfg.Notes["fail"] = strings.Repeat("U", 60)
+				}
+				r, v := one(q)
+				if len(out.Infra) > 0 {
+					return out
+				}
+				if len(v) > 0 {
+					out.Viol, out.FailPlan = v, q
+					out.Events = []string{shape, "run", callString(r.calls)}
+					return out
 				}
 			}
 			out.Stats.Probes["shapes_fully_enumerated"]++
